@@ -41,6 +41,14 @@ static unsigned PMA_BITS(unsigned p, unsigned n) { return bs_ref(p, n); }
 
 static LHAPM1Decoder dec;
 
+/* ALIGN0: start the cursor at bit 0 instead of an arbitrary alignment.  The code under test sees the stream only
+ * through read_bits(n)/read_bit(), so its behaviour cannot depend on the alignment; a concrete start makes the
+ * first field positions concrete and the query several times cheaper. */
+#ifdef ALIGN0
+#define ALIGN(skip) ((skip) = 0)
+#else
+#define ALIGN(skip) ((void) 0)
+#endif
 static void load_bits(const u8 *data, unsigned skip)
 {
 	unsigned i;
@@ -114,6 +122,7 @@ void harness_fields(void)
 	unsigned cur, want;
 	int got;
 	ASSUME(skip < 8 && opos < 0x7fff0000u && row < 32);
+	ALIGN(skip);
 	load_bits(data, skip);
 	dec = d0;
 	dec.output_stream_pos = opos;
@@ -162,6 +171,7 @@ void harness_copy(void)
 	unsigned cur, cls, len, dist, d;
 	size_t n;
 	ASSUME(skip < 8 && opos < 0x7fff0000u && pos0 < RING_BUFFER_SIZE && probe < RING_BUFFER_SIZE && idx < COPY_MAX);
+	ALIGN(skip);
 	load_bits(data, skip);
 	/* reference decode first: the harness only admits copies of at most COPY_MAX bytes */
 	cur = skip;
@@ -234,6 +244,7 @@ void harness_read(void)
 	unsigned cur, header, is_block, blen = 0, i, rank[BLOCK_MAX];
 	size_t n;
 	ASSUME(skip < 8 && opos < 0x7fff0000u && pos0 < RING_BUFFER_SIZE && row <= 32 && cret <= MAX_COPY_BLOCK_LEN);
+	ALIGN(skip);
 	load_bits(data, skip);
 	find_vals = vals;
 	cc_ret = cret;
@@ -288,6 +299,7 @@ void harness_block(void)
 	unsigned cur, blen;
 	size_t n;
 	ASSUME(skip < 8 && cret <= MAX_COPY_BLOCK_LEN);
+	ALIGN(skip);
 	load_bits(data, skip);
 	cc_ret = cret;
 	cur = skip;
